@@ -238,6 +238,8 @@ class Run(object):
             self.p = sut.construct(self.cls, initial_snapshot(cfg), self.const)
         except Exception as e:
             self.init_error = type(e).__name__
+        if self.plane.missing:
+            self.bump("probe:kernel_seam_missing")
 
     def close(self):
         self.plane.remove()
@@ -774,6 +776,13 @@ def run_systematic(seed, index, length, core_only, pristine=None, pristine_final
 
 def replay(cfg, ops, pristine=None, pristine_final=False):
     """Re-execute a concrete operation list (no PRNG involved)."""
+    if cfg.get("range"):
+        run = RangeRun(cfg)
+        if run.init_error is None:
+            for op in ops:
+                if run.step(op):
+                    break
+        return run
     if "multi" in cfg:
         run = MultiRun(cfg, pristine=pristine)
         try:
@@ -830,6 +839,8 @@ def run_index(stratum, index, base_seed, ctx):
     if stratum in STRATA:
         _, length, core = STRATA[stratum]
         run = run_systematic(seed, index, length, core, pristine=pristine, pristine_final=pf)
+    elif stratum == "R":
+        run = run_range(seed)
     elif stratum.startswith("M:"):
         run = run_multi(seed, stratum[2:], pristine=pristine, pristine_final=pf)
     else:
@@ -843,6 +854,10 @@ def run_index(stratum, index, base_seed, ctx):
 
 def describe(cfg, ops):
     """Short human-readable form of a history (used in samples and messages)."""
+    if cfg.get("range"):
+        return "Range(N=%d, sampling=%r) :: %s" % (cfg["N"], cfg["sampling"], "; ".join(
+            "%s=%r" % ({"setN": "N", "setfs": "sampling"}[o["op"]], o["value"]) if o["op"] != "obs" else "df"
+            for o in ops))
     if "multi" in cfg:
         heads = ["obj%d=%s" % (j, describe(c, []).split(" :: ")[0]) for j, c in enumerate(cfg["multi"])]
         body = []
@@ -876,6 +891,8 @@ def describe(cfg, ops):
 
 def culprit(cfg, ops):
     """Abstract descriptor of a (minimised) failing history, for known-finding matching."""
+    if cfg.get("range"):
+        return {"cls": "Range", "cplx": False, "ops": [o["op"] for o in ops]}
     if "multi" in cfg:
         return {"cls": cfg["cls"], "cplx": cfg["cplx"], "ops": ["obj%d:%s" % (o.get("o", 0), o["op"]) for o in ops]}
     kinds = []
@@ -899,6 +916,8 @@ def _trunc_data(d, n):
 def simplifications(cfg, ops):
     """Candidate simpler (cfg, ops) pairs, most aggressive first."""
     import copy
+    if cfg.get("range"):
+        return
     if "multi" in cfg:
         # drop one actor together with its operations
         if len(cfg["multi"]) > 1:
@@ -1006,14 +1025,14 @@ ASSUMPTIONS = [
 PLANS = {
     "quick": {
         "strata": [("A1", 10**9), ("A2", 10**9), ("B:fault_free", 5000), ("B:natural", 7000),
-                   ("B:injected", 7000), ("B:mixed", 5000), ("M:natural", 6000)],
+                   ("B:injected", 7000), ("B:mixed", 5000), ("M:natural", 6000), ("R", 3000)],
         "opts": {"pristine": True, "pristine_rate": 16, "selftest_n": 40},
         "wall_cap_s": 900,
     },
     "thorough": {
         "strata": [("A1", 10**9), ("A2f", 10**9), ("A3", 10**9), ("B:fault_free", 150000),
                    ("B:natural", 250000), ("B:injected", 250000), ("B:mixed", 150000), ("M:natural", 200000),
-                   ("M:fault_free", 100000)],
+                   ("M:fault_free", 100000), ("R", 200000)],
         "opts": {"pristine": True, "pristine_rate": 8, "selftest_n": 100},
         "wall_cap_s": 6 * 3600,
     },
@@ -1158,3 +1177,96 @@ def run_multi(seed, mode, pristine=None, pristine_final=False):
         return run
     finally:
         run.close()
+
+
+# ---------------------------------------------------------------------------
+# Range on its own (the axis helper behind df and frequencies())
+# ---------------------------------------------------------------------------
+
+class RangeRun(object):
+    """History of N / sampling assignments and reads on a bare spectrum.psd.Range: df == sampling/N
+    after every operation, and the three axes have the lengths the PSD representations have."""
+
+    def __init__(self, cfg):
+        self.cfg = cfg
+        self.cls = "Range"
+        self.ops = []
+        self.log = []
+        self.stats = {}
+        self.states = set()
+        self.transitions = set()
+        self.violation = None
+        self.nontrivial = False
+        self.checked_reads = 0
+        self.init_error = None
+        sp = sut.load()
+        try:
+            self.r = sp.Range(cfg["N"], cfg["sampling"])
+        except Exception as e:
+            self.init_error = type(e).__name__
+
+    def close(self):
+        pass
+
+    def step(self, op, aname=None, want_pristine=False):
+        idx = len(self.ops)
+        self.ops.append(op)
+        r = self.r
+        k = op["op"]
+        out = "ok"
+        try:
+            if k == "setN":
+                r.N = op["value"]
+                self.nontrivial = True
+            elif k == "setfs":
+                r.sampling = op["value"]
+                self.nontrivial = True
+        except Exception as e:
+            out = "raised:" + type(e).__name__
+        self.stats["op:range:%s:%s" % (k, out.split(":")[0])] = self.stats.get("op:range:%s:%s" % (k, out.split(":")[0]), 0) + 1
+        viol = None
+        try:
+            N, fs, df = r.N, r.sampling, r.df
+            self.checked_reads += 1
+            if abs(df - fs / float(N)) > 1e-12 * abs(fs / float(N)):
+                viol = Violation("df", idx, "Range: df=%r but sampling/N=%r/%r" % (df, fs, N))
+            else:
+                lens = (len(r.onesided()), len(r.twosided()), len(r.centerdc()))
+                exp = (N // 2 + 1 if N % 2 == 0 else (N + 1) // 2, N, N)
+                gl = (len(list(r.onesided_gen())), len(list(r.twosided_gen())), len(list(r.centerdc_gen())))
+                if lens != exp or gl != exp:
+                    viol = Violation("freq_len", idx, "Range(N=%d): axis lengths %s / generators %s, expected %s"
+                                     % (N, lens, gl, exp))
+        except Exception as e:
+            viol = Violation("df", idx, "Range observation raised %s" % type(e).__name__)
+        self.log.append({"i": idx, "op": op, "out": out, "df": None if viol else fnum(self.r.df)})
+        self.states.add(("Range", self.r.N % 2))
+        if viol is not None:
+            self.violation = viol
+        return viol
+
+    def finalize(self):
+        return None
+
+    def digest(self):
+        return log_digest(self.log)
+
+
+def run_range(seed):
+    rng = random.Random(seed)
+    cfg = {"range": True, "cls": "Range", "cplx": False, "N": rng.randrange(1, 200), "sampling": rng.choice(SAMPLINGS)}
+    run = RangeRun(cfg)
+    if run.init_error is not None:
+        return run
+    run.step({"op": "obs"})
+    for _ in range(rng.randrange(1, 7)):
+        r = rng.random()
+        if r < 0.45:
+            op = {"op": "setN", "value": rng.choice([1, 2, 3, rng.randrange(1, 300), run.r.N, run.r.N + 1])}
+        elif r < 0.9:
+            op = {"op": "setfs", "value": rng.choice(SAMPLINGS + [run.r.sampling, 3.0])}
+        else:
+            op = {"op": "obs"}
+        if run.step(op):
+            return run
+    return run
